@@ -105,7 +105,7 @@ def _sanitizer_extra(kind, prop, tier, seed, target, env):
         res["errors"].append("%s build failed: %s" % (kind, err[-800:]))
         return res
     res["counts"][kind + "_build_s"] = int(time.time() - t0)
-    shards, per_shard, threads, ops = (8, 3, 8, 1500) if kind == "tsan" else (8, 4, 8, 3000)
+    shards, per_shard, threads, ops = (12, 30, 8, 3000) if kind == "tsan" else (12, 40, 8, 4000)
     runs, log_dir = _run_sanitized(kind, binary, prop, seed, shards, per_shard, threads, ops, env)
     seen = {}
     for i, status, out, stderr in runs:
@@ -256,7 +256,7 @@ def miri_ack_quick_extra(prop, tier, seed, target, env):
 def miri_cache_extra(prop, tier, seed, target, env):
     jobs = []
     for i in range(16):
-        flags = "-Zmiri-many-seeds=%d..%d -Zmiri-preemption-rate=0.1 -Zmiri-ignore-leaks" % (2 * i, 2 * i + 2)
+        flags = "-Zmiri-many-seeds=%d..%d -Zmiri-preemption-rate=0.1 -Zmiri-ignore-leaks" % (4 * i, 4 * i + 4)
         jobs.append((flags, ["conc", "--scenario", "bare", "--miri", "1", "--focus", prop, "--seed", str(seed), "--from", str(i), "--count", "2",
                              "--threads", "3", "--ops", "5", "--keys", "2"]))
     return _miri(prop, seed, jobs, "miri-cache", env, 3000)
